@@ -30,12 +30,14 @@ type c06Acct struct {
 type c06Snap struct {
 	accts  []c06Acct
 	refund uint64
+	nlogs  int
 }
 
 type c06DB struct {
 	accts  []*c06Acct
 	refund uint64
 	snaps  []c06Snap
+	nlogs  int        // logs emitted (and not rolled back)
 	sets   []*big.Int // every balance value ever stored (all must be >= 0)
 	log    []c06Op    // balance mutations in call order
 }
@@ -171,7 +173,7 @@ func (db *c06DB) Empty(a common.Address) bool {
 }
 
 func (db *c06DB) Snapshot() int {
-	s := c06Snap{refund: db.refund}
+	s := c06Snap{refund: db.refund, nlogs: db.nlogs}
 	for _, x := range db.accts {
 		s.accts = append(s.accts, *x)
 	}
@@ -183,6 +185,7 @@ func (db *c06DB) RevertToSnapshot(id int) {
 	s := db.snaps[id]
 	db.snaps = db.snaps[:id]
 	db.refund = s.refund
+	db.nlogs = s.nlogs
 	// accounts created after the snapshot cease to exist
 	for i, x := range db.accts {
 		if i < len(s.accts) {
@@ -197,7 +200,7 @@ func (db *c06DB) RevertToSnapshot(id int) {
 	}
 }
 
-func (db *c06DB) AddLog(*types.Log)                                                  {}
+func (db *c06DB) AddLog(*types.Log)                                                  { db.nlogs++ }
 func (db *c06DB) AddPreimage(common.Hash, []byte)                                    {}
 func (db *c06DB) ForEachStorage(common.Address, func(common.Hash, common.Hash) bool) {}
 
